@@ -173,8 +173,13 @@ def linear_initializer(shape,
     heights_tensor = tf.constant(
         [segment_height] * num_pieces, shape=[num_pieces, 1], dtype=dtype)
   else:
-    keypoints_tensor = tf.constant(
-        keypoints, shape=[num_keypoints, 1], dtype=dtype)
+    if tf.is_tensor(keypoints):
+      # tf.constant does not convert a tensor of another dtype.
+      keypoints_tensor = tf.reshape(
+          tf.cast(keypoints, dtype), [num_keypoints, 1])
+    else:
+      keypoints_tensor = tf.constant(
+          keypoints, shape=[num_keypoints, 1], dtype=dtype)
     lengths_tensor = keypoints_tensor[1:] - keypoints_tensor[0:-1]
     output_range = output_max - output_min
     heights_tensor = (
